@@ -808,11 +808,15 @@ class RiscvParser(Parser):
             if instruction_parsed.offset:
                 offset = int(instruction_parsed.offset, base=0)
             try:
-                return labels[instruction_parsed.label] + offset - address_count
+                imm_value = labels[instruction_parsed.label] + offset - address_count
             except KeyError:
                 raise ParserLabelException(
                     line_number=line_number, line=line, label=instruction_parsed.label
                 )
+            # a label plus an odd offset is as unencodable as an odd number
+            if imm_value % 2:
+                raise ParserOddImmediateException(line_number=line_number, line=line)
+            return imm_value
 
     def _convert_register_name(self, parsed_register: pp.ParseResults | str) -> int:
         """Converts a register string into a number of the correct register
